@@ -31,7 +31,10 @@ type Line struct {
 	// expectation for free / lookalike
 	Free string `json:"free,omitempty"`
 	// generator-attested features (used for known-finding signatures)
-	DescHasCloser bool `json:"desc_has_closer,omitempty"` // description contains "})" or "}" followed later by ")"
+	// Trail: blanks appended after the description in Text (whom they belong to is not stated; only a
+	// uniform treatment within one block is required)
+	Trail         string `json:"trail,omitempty"`
+	DescHasCloser bool   `json:"desc_has_closer,omitempty"` // description contains "})" or "}" followed later by ")"
 }
 
 type Block struct {
@@ -346,6 +349,17 @@ func genBlock(r *rand.Rand, mode int) Block {
 		}
 		b.Lines = append(b.Lines, l)
 	}
+	if mode == 0 && r.Intn(8) == 0 {
+		// trailing blanks on every described annotation line of this block
+		trail := []string{" ", "\t", "  \t "}[r.Intn(3)]
+		for i := range b.Lines {
+			l := &b.Lines[i]
+			if l.Class == "attr" && l.Desc != "" && !strings.HasSuffix(l.Desc, " ") && l.Name != "Description" {
+				l.Trail = trail
+				l.Text += trail
+			}
+		}
+	}
 	if mode == 1 { // exactly one malformed line
 		at := r.Intn(len(b.Lines))
 		b.Lines[at] = genMalformed(r)
@@ -458,8 +472,22 @@ func Check(res *report.Result, b Block) {
 		res.AddViolation("attribute-count", whereOf(b), fmt.Sprintf("%d attributes parsed, %d annotation lines written", len(got), len(wantAttrs)), b)
 		return
 	}
+	trailPolicy := map[string]string{} // policy -> line that showed it
 	for i, w := range wantAttrs {
 		g := got[i]
+		if w.Trail != "" {
+			switch g.Description {
+			case w.Desc:
+				trailPolicy["trimmed"] = w.Text
+			case w.Desc + w.Trail:
+				trailPolicy["kept"] = w.Text
+				g.Description = w.Desc
+			}
+			if len(trailPolicy) > 1 {
+				res.AddViolation("trailing-blanks-treated-differently-within-one-block", whereOf(b), fmt.Sprintf("the description of %q keeps its trailing blanks while that of %q loses them", trailPolicy["kept"], trailPolicy["trimmed"]), b)
+				return
+			}
+		}
 		if g.Name != w.Name || g.Value != w.Value || g.Description != w.Desc || !propsEqual(g.Properties, w.Props) {
 			res.AddViolation("attribute-mismatch", whereOf(b),
 				fmt.Sprintf("line %q parsed as name=%q value=%q props=%v desc=%q; written name=%q value=%q props=%v desc=%q", w.Text, g.Name, g.Value, g.Properties, g.Description, w.Name, w.Value, w.Props, w.Desc), b)
